@@ -432,7 +432,11 @@ def impl_observe_chain(case) -> dict[str, Any]:
         if mode not in ("mdo", "seqchain"):
             groups = [tuple(_idx(ds, d) for d in mda.disciplines) for mda in ch.inner_mdas]
             mdas = ";".join(",".join(map(str, g)) for g in sorted(groups, key=lambda g: (min(g), g))) or "[]"
-        obs["line"] = f"in={names(ins)} out={names(outs)} mdas={mdas} val=" + (
+        flow = "-"
+        if mode in ("mdo", "seqchain"):
+            fl = sorted((_idx(ds, a), _idx(ds, b), list(v)) for a, b, v in ch.get_process_flow().get_data_flow())
+            flow = ";".join(f"{a}>{b}:{','.join(v)}" for a, b, v in fl) or "[]"
+        obs["line"] = f"in={names(ins)} out={names(outs)} mdas={mdas} flow={flow} val=" + (
             ",".join(f"{k}={'nan' if v is None else rat(v)}" for k, v in vals.items()) or "[]"
         )
     except Exception as e:  # noqa: BLE001
@@ -624,13 +628,13 @@ def same_chain_line(impl: str, model: str, exact: bool) -> bool:
     if impl == model:
         return True
     a, b = impl.split(" "), model.split(" ")
-    if len(a) != 4 or len(b) != 4 or a[:3] != b[:3]:
+    if len(a) != 5 or len(b) != 5 or a[:4] != b[:4]:
         return False
     if exact:
         return False
     try:
-        va = dict(t.split("=") for t in a[3][4:].split(",")) if a[3] != "val=[]" else {}
-        vb = dict(t.split("=") for t in b[3][4:].split(",")) if b[3] != "val=[]" else {}
+        va = dict(t.split("=") for t in a[4][4:].split(",")) if a[4] != "val=[]" else {}
+        vb = dict(t.split("=") for t in b[4][4:].split(",")) if b[4] != "val=[]" else {}
         if set(va) != set(vb):
             return False
         for k in va:
@@ -690,7 +694,7 @@ def gen_graph(rng: common.Rng, max_n: int = 9) -> dict[str, Any]:
     elif style == "names":
         nv = rng.randint(1, 10)
         p = rng.pick([0.1, 0.2, 0.3, 0.5])
-        vs = [rng.pick(["v", "w", "zz", "a_"]) + str(k) for k in range(nv)]
+        vs = [rng.pick(["v", "w", "zz", "a_", "B", "Zq"]) + str(k) for k in range(nv)]
         for i in range(n):
             discs.append({"name": f"D{i}", "in": [v for v in vs if rng.chance(p)], "out": [v for v in vs if rng.chance(p)]})
     elif style == "deep":
@@ -1100,6 +1104,97 @@ def check_chain_cases(res: Result, cases, procs: int = 1) -> None:
             res.traces_validated += 1
 
 
+# --------------------------------------------------------------------------- nested processes (oracle only)
+
+
+def gen_nested(rng: common.Rng, case) -> dict[str, Any]:
+    """A process discipline inside the MDAChain: a pre-built inner MDA for one non-trivial group, or an
+    MDOChain of a prefix of the disciplines (the composition must still be the whole system)."""
+    c = strip(case)
+    c["mode"] = "nested"
+    c["pre"], c["variant"] = [], []
+    n = len(c["discs"])
+    sccs = [sorted(x) for x in tarjan(n, edges_of(c["discs"])) if len(x) > 1]
+    if sccs:
+        c["nest"] = {"kind": "premda", "group": rng.pick(sccs), "inner": rng.pick(["MDAJacobi", "MDAGaussSeidel"]),
+                     "pos": rng.randint(0, n), "par": rng.chance(0.3)}
+    else:
+        c["nest"] = {"kind": "subchain", "k": rng.randint(1, max(1, n - 1)), "rev": rng.chance(0.5), "par": rng.chance(0.3)}
+    return c
+
+
+def impl_observe_nested(case) -> dict[str, Any]:
+    import numpy as np
+    from gemseo.core.chains.chain import MDOChain
+    from gemseo.core.coupling_structure import CouplingStructure
+    from gemseo.mda.factory import MDAFactory
+    from gemseo.mda.mda_chain import MDAChain
+
+    ds = build_lin_discs(case)
+    nest = case["nest"]
+    obs: dict[str, Any] = {}
+    try:
+        if nest["kind"] == "premda":
+            g = nest["group"]
+            inner = MDAFactory().create(nest["inner"], [ds[i] for i in g], tolerance=1e-14, max_mda_iter=200)
+            rest = [ds[i] for i in range(len(ds)) if i not in g]
+            pos = min(nest["pos"], len(rest))
+            top = rest[:pos] + [inner] + rest[pos:]
+        else:
+            k = min(nest["k"], len(ds))
+            seq = [d for st in CouplingStructure(ds[:k]).sequence for grp in st for d in grp]
+            top = [MDOChain(seq), *ds[k:]]
+            if nest["rev"]:
+                top = top[::-1]
+        ch = MDAChain(top, tolerance=1e-14, max_mda_iter=200, mdachain_parallelize_tasks=bool(nest.get("par")))
+        inp = {k_: np.array([float(Fraction(v))]) for k_, v in case["ext"].items() if k_ in ch.io.input_grammar}
+        data = ch.execute(inp)
+        vals = {}
+        for k_ in data:
+            v = np.atleast_1d(data[k_])
+            if k_ != RESIDUAL_NAME and v.size == 1:
+                vals[k_] = F(float(v[0])) if np.isfinite(v[0]) else None
+        obs["val"] = vals
+        obs["line"] = "val=" + ",".join(f"{k_}={'nan' if v is None else rat(v)}" for k_, v in sorted(vals.items()))
+    except Exception as e:  # noqa: BLE001
+        obs["exc"] = common.exc_class(e)
+        obs["exc_text"] = repr(e)[:200]
+        obs["line"] = obs["exc"]
+    return obs
+
+
+def nested_fails(case, key=None):
+    ys = [o for d in case["discs"] for o in d["out"]]
+    if len(set(ys)) != len(ys):
+        return []
+    if case["nest"]["kind"] == "premda":
+        g = case["nest"]["group"]
+        n = len(case["discs"])
+        if not all(i < n for i in g) or not any(set(c) == set(g) for c in tarjan(n, edges_of(case["discs"]))):
+            return []  # (after shrinking) the wrapped disciplines are no longer a whole group
+    bad = oracle_chain(case, impl_observe_nested(case))
+    return [b for b in bad if key is None or b[0] == key]
+
+
+def _nested_worker(cases):
+    common.quiet_gemseo()
+    return [(impl_observe_nested(c)["line"], nested_fails(c)) for c in cases]
+
+
+def check_nested_cases(res: Result, cases, procs: int = 1) -> None:
+    for case, (il, bad) in zip(cases, _pmap(_nested_worker, cases, procs)):
+        res.evaluations += 1
+        res.count(f"nested:{case['nest']['kind']}")
+        if len(case["discs"]) >= 2:
+            res.nontrivial("nested#" + chain_line({**case, "mode": "mda"}) + json.dumps(case["nest"], sort_keys=True))
+        for key, msg in bad:
+            res.count("oracle-fail:" + key)
+            if _have(res, key):
+                continue
+            small = case  # the nesting refers to positions: reported as generated
+            res.violate("oracle", key, msg, {"stream": "nested", "case": small, "impl": il})
+
+
 def load_corpus() -> list[dict[str, Any]]:
     d = common.CORPUS_DIR / PID
     out = []
@@ -1118,7 +1213,9 @@ def run(ctx) -> Result:
         "(= all listing orders), variants with external inputs / output-less disciplines / reversed name order, random sets of up to 12 "
         "disciplines (shared names, duplicated discipline names, duplicated outputs, isolated disciplines, long paths) x listing "
         "permutations; chain stream: random well-posed affine systems (acyclic exact, cyclic contractive) x listing permutations x "
-        "modes (MDOChain in listing order, MDOChain of the sequence, MDAChain Jacobi / Gauss-Seidel / parallel tasks / initialize_defaults). "
+        "modes (MDOChain in listing order, MDOChain of the sequence, MDAChain Jacobi / Gauss-Seidel / parallel tasks / initialize_defaults) x "
+        "histories (earlier executions, aliased input dict, process built twice, pre-built coupling structures); nested stream: a pre-built "
+        "inner MDA or an MDOChain as a discipline of the MDAChain (oracle only). "
         "A graph case is non-trivial when it has >= 2 disciplines and >= 1 edge, a chain case when it has >= 2 disciplines; distinct by protocol line"
     )
     res.assumptions = [
@@ -1192,6 +1289,12 @@ def run(ctx) -> Result:
         if time.time() > ctx.deadline:
             break
     check_chain_cases(res, cases, procs)
+
+    # process disciplines nested in the MDAChain (oracle only)
+    nested = []
+    for _ in range(600 if ctx.thorough else 40):
+        nested.append(gen_nested(rng, gen_system(rng, 6)))
+    check_nested_cases(res, nested, procs)
     return res
 
 
@@ -1203,7 +1306,12 @@ def replay(path: str) -> int:
         print(json.dumps(rp, indent=1))
         return 1
     stream = rp.get("stream", "chain" if "mode" in case else "graph")
-    if stream == "graph":
+    if stream == "nested":
+        obs = impl_observe_nested(case)
+        print("impl: ", obs["line"], obs.get("exc_text", ""))
+        print("whole system at once:", {k: str(v) for k, v in (monolithic(case) or {}).items()})
+        bad = oracle_chain(case, obs)
+    elif stream == "graph":
         try:
             obs = impl_observe_graph(case)
             print("impl: ", obs["line"])
